@@ -1,1 +1,6 @@
-//! Shared helpers for the vhnsw check parts.
+//! Shared helpers for the vhnsw check parts (property C12).
+pub mod enumerate;
+pub mod hist;
+pub mod model;
+pub mod recall;
+pub mod sut;
